@@ -252,6 +252,30 @@ func TestShardingPartitionsTheSearch(t *testing.T) {
 	}
 }
 
+// A replay divergence inside a thread must end the execution, not crash the process.
+func TestDivergenceEndsExecution(t *testing.T) {
+	n := 0
+	st := Explore(Options{PreemptBound: 1}, func() (func(), func(*Exec)) {
+		n++
+		k := n
+		return func() {
+			GoNamed("a", func() { P("a1"); P("a2") })
+			GoNamed("b", func() {
+				P("b1")
+				if k%2 == 0 { // every second execution has fewer alternatives than the recorded prefix expects
+					return
+				}
+				GoNamed("c", func() { P("c1") })
+				P("b2")
+			})
+			P("m1")
+		}, func(x *Exec) {}
+	})
+	if st.Divergences == 0 {
+		t.Skip("no divergence provoked by this shape")
+	}
+}
+
 // A thread that waits on something the scheduler does not model must not hang the search:
 // the execution is reported stuck and the process refuses further controlled executions.
 // (Runs last in the file: it poisons the process.)
